@@ -33,7 +33,7 @@ def permits (ae : AE) (c : Coding) : Prop :=
 instance (ae : AE) (c : Coding) : Decidable (permits ae c) := by
   unfold permits; infer_instance
 
-theorem mem_explicitQs {ae : AE} {c : Coding} {q : Nat} :
+theorem C13_aux_mem_explicitQs {ae : AE} {c : Coding} {q : Nat} :
     q ∈ explicitQs ae c ↔ (⟨.specific c, q⟩ : QItem) ∈ ae := by
   simp only [explicitQs, List.mem_map, List.mem_filter, decide_eq_true_eq]
   constructor
@@ -43,7 +43,7 @@ theorem mem_explicitQs {ae : AE} {c : Coding} {q : Nat} :
   · intro h
     exact ⟨⟨.specific c, q⟩, ⟨h, rfl⟩, rfl⟩
 
-theorem mem_starQs {ae : AE} {q : Nat} : q ∈ starQs ae ↔ (⟨.any, q⟩ : QItem) ∈ ae := by
+theorem C13_aux_mem_starQs {ae : AE} {q : Nat} : q ∈ starQs ae ↔ (⟨.any, q⟩ : QItem) ∈ ae := by
   simp only [starQs, List.mem_map, List.mem_filter, decide_eq_true_eq]
   constructor
   · rintro ⟨⟨i, q'⟩, ⟨hm, hi⟩, hq⟩
@@ -52,14 +52,14 @@ theorem mem_starQs {ae : AE} {q : Nat} : q ∈ starQs ae ↔ (⟨.any, q⟩ : QI
   · intro h
     exact ⟨⟨.any, q⟩, ⟨h, rfl⟩, rfl⟩
 
-theorem isIdentityItem_iff (qi : QItem) : isIdentityItem qi = true ↔ qi.item = .specific .identity := by
+theorem C13_aux_isIdentityItem_iff (qi : QItem) : isIdentityItem qi = true ↔ qi.item = .specific .identity := by
   simp [isIdentityItem]
 
-theorem isAnyItem_iff (qi : QItem) : isAnyItem qi = true ↔ qi.item = .any := by
+theorem C13_aux_isAnyItem_iff (qi : QItem) : isAnyItem qi = true ↔ qi.item = .any := by
   simp [isAnyItem]
 
 /-- the identity test of `negotiate`, run on the ranked list, is exactly the RFC's rule -/
-theorem identityAcceptable_iff (ae : AE) :
+theorem C13_aux_identityAcceptable_iff (ae : AE) :
     isIdentityAcceptable (sortStable ae) = true ↔ permits ae .identity := by
   unfold isIdentityAcceptable permits
   by_cases hem : (sortStable ae).isEmpty = true
@@ -74,9 +74,9 @@ theorem identityAcceptable_iff (ae : AE) :
     cases hfi : (sortStable ae).find? isIdentityItem with
     | some qi =>
       have hmem := mem_sortStable.mp (List.mem_of_find?_eq_some hfi)
-      have hit := (isIdentityItem_iff qi).mp (List.find?_some hfi)
+      have hit := (C13_aux_isIdentityItem_iff qi).mp (List.find?_some hfi)
       have hq : qi.q ∈ explicitQs ae .identity := by
-        apply mem_explicitQs.mpr
+        apply C13_aux_mem_explicitQs.mpr
         have : qi = ⟨.specific .identity, qi.q⟩ := by cases qi; simp_all
         rw [← this]; exact hmem
       have hne : explicitQs ae .identity ≠ [] := List.ne_nil_of_mem hq
@@ -85,7 +85,7 @@ theorem identityAcceptable_iff (ae : AE) :
       · intro h; exact ⟨qi.q, hq, h⟩
       · rintro ⟨q, hq', hpos⟩
         have hm' : (⟨.specific .identity, q⟩ : QItem) ∈ sortStable ae :=
-          mem_sortStable.mpr (mem_explicitQs.mp hq')
+          mem_sortStable.mpr (C13_aux_mem_explicitQs.mp hq')
         have := find?_max (sorted_sortStable ae) hfi _ hm' (by simp [isIdentityItem])
         have := q_le_of_score_le this
         simp only at this
@@ -94,16 +94,16 @@ theorem identityAcceptable_iff (ae : AE) :
       have hnone : explicitQs ae .identity = [] := by
         apply List.eq_nil_iff_forall_not_mem.mpr
         intro q hq
-        have hm' := mem_sortStable.mpr (mem_explicitQs.mp hq)
+        have hm' := mem_sortStable.mpr (C13_aux_mem_explicitQs.mp hq)
         have := List.find?_eq_none.mp hfi _ hm'
         simp [isIdentityItem] at this
       simp only [hnone, ne_eq, not_true_eq_false, ↓reduceIte]
       cases hfa : (sortStable ae).find? isAnyItem with
       | some qi =>
         have hmem := mem_sortStable.mp (List.mem_of_find?_eq_some hfa)
-        have hit := (isAnyItem_iff qi).mp (List.find?_some hfa)
+        have hit := (C13_aux_isAnyItem_iff qi).mp (List.find?_some hfa)
         have hq : qi.q ∈ starQs ae := by
-          apply mem_starQs.mpr
+          apply C13_aux_mem_starQs.mpr
           have : qi = ⟨.any, qi.q⟩ := by cases qi; simp_all
           rw [← this]; exact hmem
         have hne : starQs ae ≠ [] := List.ne_nil_of_mem hq
@@ -111,7 +111,7 @@ theorem identityAcceptable_iff (ae : AE) :
         constructor
         · intro h; exact ⟨qi.q, hq, h⟩
         · rintro ⟨q, hq', hpos⟩
-          have hm' : (⟨.any, q⟩ : QItem) ∈ sortStable ae := mem_sortStable.mpr (mem_starQs.mp hq')
+          have hm' : (⟨.any, q⟩ : QItem) ∈ sortStable ae := mem_sortStable.mpr (C13_aux_mem_starQs.mp hq')
           have := find?_max (sorted_sortStable ae) hfa _ hm' (by simp [isAnyItem])
           have := q_le_of_score_le this
           simp only at this
@@ -120,14 +120,14 @@ theorem identityAcceptable_iff (ae : AE) :
         have hnone' : starQs ae = [] := by
           apply List.eq_nil_iff_forall_not_mem.mpr
           intro q hq
-          have hm' := mem_sortStable.mpr (mem_starQs.mp hq)
+          have hm' := mem_sortStable.mpr (C13_aux_mem_starQs.mp hq)
           have := List.find?_eq_none.mp hfa _ hm'
           simp [isAnyItem] at this
         simp [hnone']
 
 /-- what the `.find(..)` of `negotiate` returns, if anything, is a supported coding listed
 explicitly with a non-zero weight -/
-theorem matched_spec {ae : AE} {sup : List Coding} {qi : QItem}
+theorem C13_aux_matched_spec {ae : AE} {sup : List Coding} {qi : QItem}
     (h : ((sortStable ae).filter (fun qi => decide (qi.q > 0))).find? (matchesSupported sup) = some qi) :
     ∃ c, qi.item = .specific c ∧ c ∈ sup ∧ 0 < qi.q ∧ qi ∈ ae := by
   have hp := List.find?_some h
@@ -141,7 +141,7 @@ theorem matched_spec {ae : AE} {sup : List Coding} {qi : QItem}
     exact ⟨c, rfl, hp, hm.2, mem_sortStable.mp hm.1⟩
 
 /-- the three ways `negotiate` can answer `some c` -/
-theorem negotiate_cases {ae : AE} {sup : List Coding} {c : Coding} (h : negotiate ae sup = some c) :
+theorem C13_aux_negotiate_cases {ae : AE} {sup : List Coding} {c : Coding} (h : negotiate ae sup = some c) :
     (ae = [] ∧ c = .identity) ∨
     (ae ≠ [] ∧ c = .identity ∧ isIdentityAcceptable (sortStable ae) = true ∧
       (((sortStable ae).filter (fun qi => decide (qi.q > 0))).find? (matchesSupported sup) = none ∨
@@ -178,7 +178,7 @@ theorem negotiate_cases {ae : AE} {sup : List Coding} {c : Coding} (h : negotiat
             cases hf : ((sortStable ae).filter (fun qi => decide (qi.q > 0))).find? (matchesSupported sup) with
             | none => rfl
             | some qi =>
-              obtain ⟨c', hi, _, _, _⟩ := matched_spec hf
+              obtain ⟨c', hi, _, _, _⟩ := C13_aux_matched_spec hf
               exact absurd (by cases qi; simp_all) (hnot c' qi.q)
           · simp at h
 
@@ -189,13 +189,13 @@ supported set — is a coding the header permits (RFC 7231 §5.3.4).  Holds for 
 `fix:` commit; the pre-fix code violates it (`witness_F3_prefix` below). -/
 theorem C13_negotiate_permitted (ae : AE) (sup : List Coding) (c : Coding)
     (h : negotiate ae sup = some c) : permits ae c := by
-  rcases negotiate_cases h with ⟨he, hc⟩ | ⟨_, hc, hid, _⟩ | ⟨_, q, hf⟩
+  rcases C13_aux_negotiate_cases h with ⟨he, hc⟩ | ⟨_, hc, hid, _⟩ | ⟨_, q, hf⟩
   · subst he; subst hc; simp [permits, explicitQs, starQs]
-  · subst hc; exact (identityAcceptable_iff ae).mp hid
-  · obtain ⟨c', hi, _, hq, hm⟩ := matched_spec hf
+  · subst hc; exact (C13_aux_identityAcceptable_iff ae).mp hid
+  · obtain ⟨c', hi, _, hq, hm⟩ := C13_aux_matched_spec hf
     simp only [Pref.specific.injEq] at hi
     subst hi
-    have hq' : q ∈ explicitQs ae c := mem_explicitQs.mpr hm
+    have hq' : q ∈ explicitQs ae c := C13_aux_mem_explicitQs.mpr hm
     unfold permits
     rw [if_pos (List.ne_nil_of_mem hq')]
     exact ⟨q, hq', hq⟩
@@ -206,10 +206,10 @@ example : negotiate [⟨.specific .gzip, 500⟩, ⟨.any, 0⟩] supported = some
 unencoded representation. -/
 theorem C13_negotiate_supported (ae : AE) (sup : List Coding) (c : Coding)
     (h : negotiate ae sup = some c) : c ∈ sup ∨ c = .identity := by
-  rcases negotiate_cases h with ⟨_, hc⟩ | ⟨_, hc, _, _⟩ | ⟨_, q, hf⟩
+  rcases C13_aux_negotiate_cases h with ⟨_, hc⟩ | ⟨_, hc, _, _⟩ | ⟨_, q, hf⟩
   · exact Or.inr hc
   · exact Or.inr hc
-  · obtain ⟨c', hi, hs, _, _⟩ := matched_spec hf
+  · obtain ⟨c', hi, hs, _, _⟩ := C13_aux_matched_spec hf
     simp only [Pref.specific.injEq] at hi
     subst hi; exact Or.inl hs
 
@@ -239,24 +239,53 @@ theorem C13_negotiate_best (ae : AE) (sup : List Coding) (c : Coding)
     ∃ q ∈ explicitQs ae c, q' ≤ q := by
   have hm' : (⟨.specific c', q'⟩ : QItem) ∈ (sortStable ae).filter (fun qi => decide (qi.q > 0)) := by
     simp only [List.mem_filter, decide_eq_true_eq]
-    exact ⟨mem_sortStable.mpr (mem_explicitQs.mp hq'), hpos⟩
+    exact ⟨mem_sortStable.mpr (C13_aux_mem_explicitQs.mp hq'), hpos⟩
   have hp' : matchesSupported sup ⟨.specific c', q'⟩ = true := by
     simp [matchesSupported, hs]
-  rcases negotiate_cases h with ⟨he, _⟩ | ⟨_, hc, hid, hnone | hidsup⟩ | ⟨_, q, hf⟩
+  rcases C13_aux_negotiate_cases h with ⟨he, _⟩ | ⟨_, hc, hid, hnone | hidsup⟩ | ⟨_, q, hf⟩
   · subst he; simp [explicitQs] at hq'
   · exact absurd hp' (by simpa using List.find?_eq_none.mp hnone _ hm')
   · -- early return: the supported set is {identity}
     have : c' = .identity := eq_of_dedup_length_one hidsup.2 hs hidsup.1
     subst this; subst hc
     exact ⟨q', hq', Nat.le_refl _⟩
-  · obtain ⟨c'', hi, _, _, hm⟩ := matched_spec hf
+  · obtain ⟨c'', hi, _, _, hm⟩ := C13_aux_matched_spec hf
     simp only [Pref.specific.injEq] at hi
     subst hi
-    refine ⟨q, mem_explicitQs.mpr hm, ?_⟩
+    refine ⟨q, C13_aux_mem_explicitQs.mpr hm, ?_⟩
     rw [List.find?_filter] at hf
     have := find?_max (sorted_sortStable ae) hf ⟨.specific c', q'⟩
-      (mem_sortStable.mpr (mem_explicitQs.mp hq')) (by simp [hpos, hp'])
+      (mem_sortStable.mpr (C13_aux_mem_explicitQs.mp hq')) (by simp [hpos, hp'])
     exact q_le_of_score_le this
+
+/-- **C13_negotiate_tiebreak**: among supported codings listed with the same (maximal) weight the
+server's ranking br > zstd > gzip > deflate > other decides. -/
+theorem C13_negotiate_tiebreak (ae : AE) (sup : List Coding) (c : Coding)
+    (h : negotiate ae sup = some c) (c' : Coding) (hs : c' ∈ sup) (q : Nat)
+    (hq : q ∈ explicitQs ae c') (hpos : 0 < q) (hmax : ∀ q'' ∈ explicitQs ae c, q'' ≤ q) :
+    encodingRank ⟨.specific c', q⟩ ≤ encodingRank ⟨.specific c, q⟩ := by
+  have hm' : (⟨.specific c', q⟩ : QItem) ∈ (sortStable ae).filter (fun qi => decide (qi.q > 0)) := by
+    simp only [List.mem_filter, decide_eq_true_eq]
+    exact ⟨mem_sortStable.mpr (C13_aux_mem_explicitQs.mp hq), hpos⟩
+  have hp' : matchesSupported sup ⟨.specific c', q⟩ = true := by simp [matchesSupported, hs]
+  rcases C13_aux_negotiate_cases h with ⟨he, _⟩ | ⟨_, hc, hid, hnone | hidsup⟩ | ⟨_, qc, hf⟩
+  · subst he; simp [explicitQs] at hq
+  · exact absurd hp' (by simpa using List.find?_eq_none.mp hnone _ hm')
+  · have : c' = .identity := eq_of_dedup_length_one hidsup.2 hs hidsup.1
+    subst this; subst hc; exact Nat.le_refl _
+  · obtain ⟨c'', hi, _, _, hm⟩ := C13_aux_matched_spec hf
+    simp only [Pref.specific.injEq] at hi
+    subst hi
+    rw [List.find?_filter] at hf
+    have hsc := find?_max (sorted_sortStable ae) hf ⟨.specific c', q⟩
+      (mem_sortStable.mpr (C13_aux_mem_explicitQs.mp hq)) (by simp [hpos, hp'])
+    have hle := hmax qc (C13_aux_mem_explicitQs.mpr hm)
+    have hge := q_le_of_score_le hsc
+    simp only at hge
+    have : qc = q := by omega
+    subst this
+    simp only [score] at hsc
+    omega
 
 /-! ## F3: the code before the `fix:` commit (kept as a kernel-checked counter-example) -/
 
@@ -291,18 +320,18 @@ theorem C13_not_acceptable_justified (ae : AE) (sup : List Coding) (hs : sup ≠
           split at h
           · simp at h
           · rename_i hid
-            refine ⟨fun hp => hid ((identityAcceptable_iff ae).mpr hp), ?_⟩
+            refine ⟨fun hp => hid ((C13_aux_identityAcceptable_iff ae).mpr hp), ?_⟩
             intro c hc q hq
             apply Nat.eq_zero_of_not_pos
             intro hpos
             have hm' : (⟨.specific c, q⟩ : QItem) ∈ (sortStable ae).filter (fun qi => decide (qi.q > 0)) := by
               simp only [List.mem_filter, decide_eq_true_eq]
-              exact ⟨mem_sortStable.mpr (mem_explicitQs.mp hq), hpos⟩
+              exact ⟨mem_sortStable.mpr (C13_aux_mem_explicitQs.mp hq), hpos⟩
             have hp' : matchesSupported sup ⟨.specific c, q⟩ = true := by simp [matchesSupported, hc]
             cases hf : ((sortStable ae).filter (fun qi => decide (qi.q > 0))).find? (matchesSupported sup) with
             | none => exact absurd hp' (by simpa using List.find?_eq_none.mp hf _ hm')
             | some qi =>
-              obtain ⟨c', hi, _, _, _⟩ := matched_spec hf
+              obtain ⟨c', hi, _, _, _⟩ := C13_aux_matched_spec hf
               exact absurd (by cases qi; simp_all) (hnot c' qi.q)
 
 /-! ## Codec law -/
@@ -315,7 +344,7 @@ by the `finish` output, decode to the concatenation of the chunks. -/
 def Lossless (c : Codec σ) (D : Bytes → Option Bytes) : Prop :=
   ∀ xs : List Bytes, D (encRest c c.init xs) = some xs.flatten
 
-theorem toy_encRest (s : ToyState) (xs : List Bytes) :
+theorem C13_aux_toy_encRest (s : ToyState) (xs : List Bytes) :
     encRest toyCodec s xs =
       s.outb ++ s.pend ++ xs.flatten ++ [UInt8.ofNat ((s.total + xs.flatten.length) % 256)] := by
   induction xs generalizing s with
@@ -329,7 +358,7 @@ theorem toy_encRest (s : ToyState) (xs : List Bytes) :
 are not vacuous) -/
 theorem toy_lossless : Lossless toyCodec toyDecode := by
   intro xs
-  rw [toy_encRest]
+  rw [C13_aux_toy_encRest]
   simp [toyCodec, toyDecode]
 
 /-! ## The body stream -/
@@ -503,6 +532,24 @@ theorem C13_head (encoding : Coding) (h : Head) (size : BodySize) (c : Coding)
 
 example : (response .gzip ⟨200, [("vary", "origin")], true⟩ (.sized 10)).2 = .encode .gzip := by decide
 
+/-- **C13_no_stale_length**: an encoded response is framed `transfer-encoding: chunked` on an h1
+connection and carries no `Content-Length` at all — whatever length the handler's body had and
+whatever `Content-Length` header the handler set (and even if the handler had disabled chunking). -/
+theorem C13_no_stale_length (encoding : Coding) (h : Head) (size : BodySize) (c : Coding)
+    (hm : (response encoding h size).2 = .encode c) (hcl : Option String) :
+    h1Framing (encSize (response encoding h size).2 size) (response encoding h size).1.noChunking hcl
+      = (true, none) := by
+  obtain ⟨_, _, _, _, _, _, _, hnc, hsz⟩ := C13_head encoding h size c hm
+  rw [hsz, hnc]; rfl
+
+/-- …while a response that is passed through keeps the framing its own size dictates. -/
+theorem C13_passthrough_framing (encoding : Coding) (h : Head) (size : BodySize)
+    (hp : MustPass encoding h size) (hcl : Option String) :
+    h1Framing (encSize (response encoding h size).2 size) (response encoding h size).1.noChunking hcl
+      = h1Framing size h.noChunking hcl := by
+  obtain ⟨h1, _, h3⟩ := C13_passthrough encoding h size hp
+  rw [h3, h1]
+
 /-! ## The middleware as a whole -/
 
 /-- the bytes the handler's body stands for -/
@@ -511,7 +558,7 @@ def handlerBytes (b : RespBody) : Bytes :=
   | some bs => bs
   | none => (chunksOf b.evs).flatten
 
-theorem chunksOf_encBodyEvs (m : Mode) (b : RespBody) (hm : m ≠ .none) (hm' : m ≠ .empty) :
+theorem C13_aux_chunksOf_encBodyEvs (m : Mode) (b : RespBody) (hm : m ≠ .none) (hm' : m ≠ .empty) :
     (chunksOf (encBodyEvs m b)).flatten = handlerBytes b := by
   unfold encBodyEvs handlerBytes
   cases m with
@@ -526,7 +573,7 @@ theorem chunksOf_encBodyEvs (m : Mode) (b : RespBody) (hm : m ≠ .none) (hm' : 
     | none => simp
     | some bs => by_cases he : bs.isEmpty <;> simp_all [chunksOf]
 
-theorem hasErr_encBodyEvs (m : Mode) (b : RespBody) (h : hasErr b.evs = false) :
+theorem C13_aux_hasErr_encBodyEvs (m : Mode) (b : RespBody) (h : hasErr b.evs = false) :
     hasErr (encBodyEvs m b) = false := by
   unfold encBodyEvs
   cases m <;> simp only [hasErr]
@@ -539,7 +586,7 @@ def mkResp (enc : Coding) (h : Head) (b : RespBody) : MwResp :=
   { head := (response enc h b.size).1, mode := (response enc h b.size).2,
     size := encSize (response enc h b.size).2 b.size, evs := encBodyEvs (response enc h b.size).2 b }
 
-theorem compress_cases (ae : AE) (h : Head) (ct : Option (String × String)) (b : RespBody) :
+theorem C13_aux_compress_cases (ae : AE) (h : Head) (ct : Option (String × String)) (b : RespBody) :
     (negotiate ae supported = none ∧ compress (some ae) h ct b = notAcceptableResp) ∨
     (∃ c0 enc, negotiate ae supported = some c0 ∧ (enc = c0 ∨ enc = .identity) ∧
       compress (some ae) h ct b = mkResp enc h b) := by
@@ -570,7 +617,7 @@ theorem C13_compress_sound (inPlace : Bytes → Bool) (codec : Coding → Codec 
         (compress (some ae) h ct b).evs joins)).flatten = some (handlerBytes b) ∧
       (driveAt inPlace (codec cd) fuel (initEnc (codec cd) (.encode cd))
         (compress (some ae) h ct b).evs joins).getLast? = some .done := by
-  rcases compress_cases ae h ct b with ⟨_, hc⟩ | ⟨c0, enc, hn, henc, hc⟩
+  rcases C13_aux_compress_cases ae h ct b with ⟨_, hc⟩ | ⟨c0, enc, hn, henc, hc⟩
   · rw [hc] at hm; simp [notAcceptableResp] at hm
   · rw [hc] at hm ⊢
     simp only [mkResp] at hm ⊢
@@ -584,8 +631,8 @@ theorem C13_compress_sound (inPlace : Bytes → Bool) (codec : Coding → Codec 
     intro fuel hf
     rw [hm] at hf ⊢
     have := C13_stream_lossless inPlace (codec cd) (D cd) (hl cd hsel) cd
-      (encBodyEvs (.encode cd) b) joins (hasErr_encBodyEvs _ b hb) fuel hf
-    rw [chunksOf_encBodyEvs _ b (by simp) (by simp)] at this
+      (encBodyEvs (.encode cd) b) joins (C13_aux_hasErr_encBodyEvs _ b hb) fuel hf
+    rw [C13_aux_chunksOf_encBodyEvs _ b (by simp) (by simp)] at this
     exact this
 
 /-- …and when no compressor is installed the response is the 406 answer or carries the handler's
@@ -610,7 +657,7 @@ theorem C13_compress_untouched (ae : Option AE) (h : Head) (ct : Option (String 
     unfold compress mwNegotiate
     by_cases hpred : compressPredicate ct = true <;> simp [hpred, hp.1]
   | some ae =>
-    rcases compress_cases ae h ct b with ⟨_, hc⟩ | ⟨c0, enc, _, _, hc⟩
+    rcases C13_aux_compress_cases ae h ct b with ⟨_, hc⟩ | ⟨c0, enc, _, _, hc⟩
     · exact Or.inr hc
     · rw [hc] at hm ⊢; exact Or.inl (key enc hm)
 
